@@ -28,7 +28,8 @@ GEN = [
     ('C14GenProbes', T.tr_probes),
     ('C14GenLine', T.tr_line),
 ]
-DYN_LEVELS = [['C14_TieGeom', 'C14_TieSplit', 'C14_TieProbes', 'C14_TieLine'], ['C14_TieFinder'], ['C14_TieQuad']]
+DYN_LEVELS = [['C14_TieGeom', 'C14_TieSplit', 'C14_TieProbes', 'C14_TieLine'], ['C14_TieFinder', 'C14_SplitBary'],
+              ['C14_TieQuad', 'C14_TieHexWedge']]
 
 
 def regenerate(ctx):
@@ -44,9 +45,14 @@ def regenerate(ctx):
     return facts, written
 
 
-def compile_all(ctx, written):
+def compile_all(ctx, written, facts):
     ok = compile_parallel(ctx, [f'gen/{n}.v' for n in written])
     ctx.copy_dyn()
+    if 'C14GenSplits' in facts:
+        try:
+            ctx.write('dyn/C14_SplitBary.v', T.tr_split_bary(facts['C14GenSplits']))
+        except TranslateError as e:
+            ctx.broke('translator', 'C14_SplitBary', e)
     for lev in DYN_LEVELS:
         ok.update(compile_parallel(ctx, [f'dyn/{n}.v' for n in lev], kind='tie', timeout=600))
     return ok
@@ -80,7 +86,7 @@ def run(ctx):
 
     def coq_side():
         try:
-            ok.update(compile_all(ctx, written))
+            ok.update(compile_all(ctx, written, facts))
             ctx.prove()
             ctx.log(f'build+prove {time.time() - t:.1f}s')
         except Exception as e:      # noqa: BLE001
